@@ -965,8 +965,9 @@ class Router:
         # Step 2: look up DE PV from LocT
         de_entry = self.location_table.get_entry(
             request.destination) if request.destination else None
-        if de_entry is None:
-            # No LocTE for destination → invoke Location Service (§10.3.7.1.2)
+        if de_entry is None or de_entry.ls_pending is True:
+            # No LocTE for destination, or its lookup is still in progress
+            # → invoke Location Service / queue behind it (§10.3.7.1.2)
             assert request.destination is not None
             self.gn_ls_request(request.destination, request)
             return GNDataConfirm(result_code=ResultCode.ACCEPTED)
